@@ -8,8 +8,8 @@
      _get_project_config_fn, _locate_config_dir (both loops), _raise_if_older_schema,
      migration._get_config_schema_version (loader order, guess),
      Project.__init__ (config test, version gate BEFORE the workspace mkdir, _mkdir_p(workspace)),
-     Project.get_project (search / no search), Project.get_job (last 32-hex run of the absolute
-     path string), Project.init_project (existing project returned before anything is written).
+     Project.get_project (search / no search), Project.get_job (innermost path component that is
+     exactly a job id), Project.init_project (existing project returned before anything is written).
    ConfigObj parsing is outside the model: a configuration file is a node [File (FCfg c)] holding
    the parsed record. *)
 From SV Require Import Base Json.
@@ -397,21 +397,18 @@ Definition get_project (root : node) (cwd path : str) (search : bool) : result s
 Definition is_hex (c : N) : bool :=
   (N.leb 48 c && N.leb c 57) || (N.leb 97 c && N.leb c 102).   (* [a-f0-9] *)
 
-(* re.finditer("[a-f0-9]{32}", s): end positions of the successive non-overlapping matches.
-   [run] = number of consecutive hex characters just read that are not yet part of a match,
-   [pos] = number of characters read. *)
-Fixpoint id_ends (run pos : nat) (s : str) : list nat :=
-  match s with
-  | [] => []
-  | c :: s' =>
-      if is_hex c then
-        if Nat.eqb (S run) 32 then S pos :: id_ends 0 (S pos) s'
-        else id_ends (S run) (S pos) s'
-      else id_ends 0 (S pos) s'
-  end.
+(* JOB_ID_REGEX.fullmatch(component) *)
+Definition id_fullmatch (c : str) : bool := Nat.eqb (List.length c) 32 && forallb is_hex c.
 
-Definition last_id_end (s : str) : option nat :=
-  match rev (id_ends 0 0 s) with e :: _ => Some e | [] => None end.
+(* scanning path.split(os.sep) from the END for the first component that is exactly a job id
+   (fix 6e2adfe; before it the code took the last 32-hex RUN of the whole path string).
+   The argument is the component list reversed; the result is the id and the reversed list of the
+   components up to and including it. *)
+Fixpoint innermost_idcomp (rcomps : list str) : option (str * list str) :=
+  match rcomps with
+  | [] => None
+  | c :: r => if id_fullmatch c then Some (c, rcomps) else innermost_idcomp r
+  end.
 
 Definition s_pardir : str := s_dotdot.
 
@@ -419,11 +416,10 @@ Definition get_job (root : node) (cwd path : str) : result (str * str) * node :=
   let ap := abspath cwd path in
   if negb (os_exists root cwd ap) then (Err ELookupError, root)
   else
-    match last_id_end ap with
+    match innermost_idcomp (rev (split_sl ap)) with
     | None => (Err ELookupError, root)
-    | Some e =>
-        let job_id := skipn (e - 32) (firstn e ap) in
-        let job_path := firstn e ap in
+    | Some (job_id, rupto) =>
+        let job_path := join_sl (rev rupto) in
         match get_project root cwd (path_join job_path s_pardir) true with
         | (Ok pr, root') => (Ok (pr, job_id), root')
         | (Err x, root') => (Err x, root')
